@@ -8,7 +8,7 @@ ENGINES = [
     {"name": "towersim (E1)", "path": "harness/src/{e1,model,world,tower,chain,node,snap}.rs", "serves_properties": ["C01", "C02", "C03", "C04", "C06", "C07", "C08", "C09", "C11", "C12"],
      "kind_free_text": "the real tower components in one process against a simulated chain and node; a sequential reference model (TowerModel) and "
                        "per-property monitors compare replies, sqlite rows, private-API answers and the node RPC log after every step"},
-    {"name": "pure (E6)", "path": "harness/src/pure_*.rs", "serves_properties": ["C17", "C19", "C20", "C07"],
+    {"name": "pure (E6)", "path": "harness/src/pure_*.rs", "serves_properties": ["C17", "C18", "C19", "C20", "C07"],
      "kind_free_text": "direct calls into the real library code with an independent reference oracle, seeded generators, per-case monitors"},
 ]
 
@@ -76,6 +76,12 @@ META = {
         "text": "Held on every generated transaction/id/key/message and every mutation tried in this run; sampled inputs, nothing is proved. "
                 "Right level because the property is a pure input/output relation of two library functions.",
         "note": "Trusts chacha20poly1305/secp256k1 crates only as far as the oracle's independent re-statement agrees with them; sampled, not exhaustive.",
+    },
+    "C18": {
+        "engine": "pure (E6)", "level": "exploration", "design_ref": "DESIGN.md §4 C18",
+        "technique": "reference-model monitor over the real WTClient/DBM with a reload (second client on a copy of the directory) after every prefix",
+        "text": "Every prefix of every generated sequence is checked three ways (memory, sqlite rows, restarted client) against a dictionary model. Held on everything executed.",
+        "note": "Sequences the plugin itself can produce; in-process (no plugin binary).",
     },
     "C19": {
         "engine": "pure (E6)", "level": "exploration", "design_ref": "DESIGN.md §4 C19",
